@@ -317,13 +317,13 @@ theorem next_false_position (env : Env) (it it' : Iter) (hinv : it.Inv) (h : it.
         · split at h
           · injection h with h; injection h with _ h2; cases h2
           · injection h with h
-            have := scanFinish_true { it with position := some _, lastMove := it.move, move := zeroMove }
-            rw [h] at this; cases this
+            have hh := congrArg Prod.snd h
+            rw [scanFinish_true] at hh; cases hh
         · injection h with h; injection h with h1 _; rw [← h1]; exact hp
         · cases h
       · injection h with h
-        have := scanFinish_true it
-        rw [h] at this; cases this
+        have hh := congrArg Prod.snd h
+        rw [scanFinish_true] at hh; cases hh
 
 /-- the frame a `PositionAtMove(move, color)` request is looking for -/
 def matchFrame (move : Int) (color : Color) (fr : Frame) : Bool :=
@@ -355,7 +355,7 @@ theorem loop_of_collect (env : Env) (move : Int) (color : Color) : ∀ fuel it f
       cases hp : a.position with
       | none => exact absurd hp (ainv.1 aerr)
       | some p =>
-        rw [hp] at hc ⊢
+        rw [hp] at hc
         dsimp only at hc ⊢
         cases hc' : collect env n a with
         | error e' => rw [hc'] at hc; cases hc
@@ -391,7 +391,14 @@ theorem loop_of_collect (env : Env) (move : Int) (color : Color) : ∀ fuel it f
                   refine ⟨p', ?_, hr⟩
                   cases fs' with
                   | nil => simpa using hp'
-                  | cons x xs => simpa [List.getLast?_cons_cons] using hp'
+                  | cons x xs =>
+                    obtain ⟨y, hy⟩ : ∃ y, (x :: xs).getLast? = some y := by
+                      cases h : (x :: xs).getLast? with
+                      | none => simp at h
+                      | some y => exact ⟨y, rfl⟩
+                    rw [List.getLast?_cons_cons, hy]
+                    rw [hy] at hp'
+                    exact hp'
     · rw [ha] at hc ⊢
       dsimp only at hc ⊢
       injection hc with hc; injection hc with hfs he
@@ -413,3 +420,271 @@ theorem loop_of_collect (env : Env) (move : Int) (color : Color) : ∀ fuel it f
           | none => exact absurd hp (ainv.1 hae)
           | some p => exact ⟨p, by rw [← hpos, hp], rfl⟩
     · rw [hs] at hc; cases hc
+
+/-! ### what the list-level replay means -/
+
+/-- the recorded moves, in order -/
+def movesOf : List Op → List Move
+  | [] => []
+  | .move _ m _ :: ops => m :: movesOf ops
+  | _ :: ops => movesOf ops
+
+/-- apply moves one after the other -/
+def applyAll (basis : Array W) : Pos → List Move → R Pos
+  | p, [] => .ok p
+  | p, m :: ms =>
+    match p.apply basis m with
+    | .ok q => applyAll basis q ms
+    | .error e => .error e
+
+/-- replay of a bare move list: the positions passed through; stop after a move that ends the game;
+stop with the error flag at a move that cannot be applied -/
+def runMoves (basis : Array W) : Pos → List Move → List Pos × Bool
+  | p, [] => ([p], false)
+  | p, m :: ms =>
+    match p.apply basis m with
+    | .error _ => ([p], true)
+    | .ok q =>
+      if q.gameOver.1 then ([p, q], false)
+      else (p :: (runMoves basis q ms).1, (runMoves basis q ms).2)
+
+/-- the marker in force at the `j`-th (0-based) move op: the number of the last move-number op before it
+(`mk` if there is none); beyond the last move op: the last move-number of the whole record -/
+def markerAt : List Op → Int → Nat → Int
+  | [], mk, _ => mk
+  | .moveNumber _ n :: ops, _, j => markerAt ops n j
+  | .move _ _ _ :: _, mk, 0 => mk
+  | .move _ _ _ :: ops, mk, j+1 => markerAt ops mk j
+  | .comment _ _ :: ops, mk, j => markerAt ops mk j
+  | .result _ _ :: ops, mk, j => markerAt ops mk j
+
+/-- positions and error flag of the replay depend on the move list alone -/
+theorem specFrames_positions (basis : Array W) (ops : List Op) : ∀ (mk : Int) (p : Pos),
+    (specFrames basis ops mk p).1.map (·.2) = (runMoves basis p (movesOf ops)).1 ∧
+    (specFrames basis ops mk p).2 = (runMoves basis p (movesOf ops)).2 := by
+  induction ops with
+  | nil => intro mk p; exact ⟨rfl, rfl⟩
+  | cons op ops ih =>
+    intro mk p
+    cases op with
+    | moveNumber s n => simp only [specFrames, movesOf]; exact ih n p
+    | comment s c => simp only [specFrames, movesOf]; exact ih mk p
+    | result s r => simp only [specFrames, movesOf]; exact ih mk p
+    | move s m md =>
+      simp only [specFrames, movesOf, runMoves]
+      cases p.apply basis m with
+      | error e => exact ⟨rfl, rfl⟩
+      | ok q =>
+        dsimp only
+        by_cases hg : q.gameOver.1 = true
+        · rw [if_pos hg, if_pos hg]; exact ⟨rfl, rfl⟩
+        · rw [if_neg hg, if_neg hg]
+          obtain ⟨h1, h2⟩ := ih mk q
+          exact ⟨by simp only [List.map_cons, h1], h2⟩
+
+/-- the `j`-th position of the replay is the start position with exactly the first `j` moves applied -/
+theorem runMoves_get (basis : Array W) (ms : List Move) : ∀ (p : Pos) (j : Nat) (q : Pos),
+    (runMoves basis p ms).1[j]? = some q → applyAll basis p (ms.take j) = .ok q := by
+  induction ms with
+  | nil =>
+    intro p j q h
+    cases j with
+    | zero => simp only [runMoves, List.getElem?_cons_zero, Option.some.injEq] at h; subst h; rfl
+    | succ j => simp [runMoves] at h
+  | cons m ms ih =>
+    intro p j q h
+    cases j with
+    | zero =>
+      have : (runMoves basis p (m :: ms)).1[0]? = some p := by
+        simp only [runMoves]
+        split
+        · rfl
+        · split <;> rfl
+      rw [this] at h
+      injection h with h; subst h; rfl
+    | succ j =>
+      simp only [runMoves] at h
+      simp only [List.take_succ_cons, applyAll]
+      cases ha : p.apply basis m with
+      | error e => rw [ha] at h; simp at h
+      | ok r =>
+        rw [ha] at h
+        dsimp only at h ⊢
+        by_cases hg : r.gameOver.1 = true
+        · rw [if_pos hg] at h
+          cases j with
+          | zero => simp only [List.getElem?_cons_succ, List.getElem?_cons_zero, Option.some.injEq] at h; subst h; simp [applyAll]
+          | succ j => simp at h
+        · rw [if_neg hg] at h
+          simp only [List.getElem?_cons_succ] at h
+          exact ih r j q h
+
+/-- replay stops when the game ends: a position after the first that is a finished game is the last one,
+and the replay does not end in an error -/
+theorem runMoves_stops (basis : Array W) (ms : List Move) : ∀ (p : Pos) (j : Nat) (q : Pos),
+    (runMoves basis p ms).1[j + 1]? = some q → q.gameOver.1 = true →
+    (runMoves basis p ms).1.length = j + 2 ∧ (runMoves basis p ms).2 = false := by
+  induction ms with
+  | nil => intro p j q h; simp [runMoves] at h
+  | cons m ms ih =>
+    intro p j q h hq
+    simp only [runMoves] at h ⊢
+    cases ha : p.apply basis m with
+    | error e => rw [ha] at h; simp at h
+    | ok r =>
+      rw [ha] at h
+      dsimp only at h ⊢
+      by_cases hg : r.gameOver.1 = true
+      · rw [if_pos hg] at h ⊢
+        cases j with
+        | zero => exact ⟨rfl, rfl⟩
+        | succ j => simp at h
+      · rw [if_neg hg] at h ⊢
+        simp only [List.getElem?_cons_succ] at h
+        cases j with
+        | zero =>
+          -- the position after the first move is `r`, which is not a finished game
+          exfalso
+          have : (runMoves basis r ms).1[0]? = some r := by
+            cases ms with
+            | nil => rfl
+            | cons m' ms' =>
+              simp only [runMoves]
+              split
+              · rfl
+              · split <;> rfl
+          rw [this] at h; injection h with h; subst h; exact hg hq
+        | succ j =>
+          obtain ⟨h1, h2⟩ := ih r j q h hq
+          exact ⟨by simp only [List.length_cons, h1], h2⟩
+
+theorem runMoves_ne_nil (basis : Array W) (ms : List Move) (p : Pos) : (runMoves basis p ms).1 ≠ [] := by
+  cases ms with
+  | nil => simp [runMoves]
+  | cons m ms =>
+    simp only [runMoves]
+    split
+    · simp
+    · split <;> simp
+
+/-- an illegal move is reported: when the replay ends with the error flag, the move that follows the last
+position shown cannot be applied to it -/
+theorem runMoves_error (basis : Array W) (ms : List Move) : ∀ (p : Pos),
+    (runMoves basis p ms).2 = true →
+      ∃ q m e, (runMoves basis p ms).1.getLast? = some q ∧ ms[(runMoves basis p ms).1.length - 1]? = some m ∧
+        q.apply basis m = .error e := by
+  induction ms with
+  | nil => intro p h; simp [runMoves] at h
+  | cons m ms ih =>
+    intro p h
+    simp only [runMoves] at h ⊢
+    cases ha : p.apply basis m with
+    | error e => exact ⟨p, m, e, rfl, rfl, ha⟩
+    | ok r =>
+      rw [ha] at h
+      dsimp only at h ⊢
+      by_cases hg : r.gameOver.1 = true
+      · rw [if_pos hg] at h; cases h
+      · rw [if_neg hg] at h ⊢
+        obtain ⟨q, m', e, h1, h2, h3⟩ := ih r h
+        have hne := runMoves_ne_nil basis ms r
+        refine ⟨q, m', e, ?_, ?_, h3⟩
+        · rw [List.getLast?_cons_of_ne_nil hne]; exact h1
+        · have hl : 0 < (runMoves basis r ms).1.length := List.length_pos_iff.mpr hne
+          simp only [List.length_cons]
+          have : (runMoves basis r ms).1.length + 1 - 1 = ((runMoves basis r ms).1.length - 1) + 1 := by omega
+          rw [this, List.getElem?_cons_succ]; exact h2
+
+/-- a replay without error either applied every recorded move, or stopped at a finished game -/
+theorem runMoves_complete (basis : Array W) (ms : List Move) : ∀ (p : Pos),
+    (runMoves basis p ms).2 = false →
+      (runMoves basis p ms).1.length = ms.length + 1 ∨
+      ∃ j q, (runMoves basis p ms).1[j + 1]? = some q ∧ q.gameOver.1 = true ∧ (runMoves basis p ms).1.length = j + 2 := by
+  induction ms with
+  | nil => intro p _; left; rfl
+  | cons m ms ih =>
+    intro p h
+    simp only [runMoves] at h ⊢
+    cases ha : p.apply basis m with
+    | error e => rw [ha] at h; cases h
+    | ok r =>
+      rw [ha] at h
+      dsimp only at h ⊢
+      by_cases hg : r.gameOver.1 = true
+      · rw [if_pos hg]
+        right; exact ⟨0, r, rfl, hg, rfl⟩
+      · rw [if_neg hg] at h ⊢
+        rcases ih r h with h1 | ⟨j, q, h1, h2, h3⟩
+        · left; simp only [List.length_cons, h1]
+        · right; exact ⟨j + 1, q, by simpa using h1, h2, by simp only [List.length_cons, h3]⟩
+
+/-- the marker shown with the `j`-th frame is the marker in force at the `j`-th move op (the last number
+seen when the record has no further move); the one exception is the frame of a position that ended the
+game, which keeps the marker of the move that led to it (`Next` does not look ahead once the game is over) -/
+theorem specFrames_marker (basis : Array W) (ops : List Op) : ∀ (mk : Int) (p : Pos) (j : Nat) (fr : Frame),
+    (specFrames basis ops mk p).1[j]? = some fr →
+    fr.1 = markerAt ops mk j ∨ ∃ j', j = j' + 1 ∧ fr.2.gameOver.1 = true ∧ fr.1 = markerAt ops mk j' := by
+  induction ops with
+  | nil =>
+    intro mk p j fr h
+    cases j with
+    | zero => simp only [specFrames, List.getElem?_cons_zero, Option.some.injEq] at h; subst h; left; rfl
+    | succ j => simp [specFrames] at h
+  | cons op ops ih =>
+    intro mk p j fr h
+    cases op with
+    | moveNumber s n => simp only [specFrames] at h; simpa only [markerAt] using ih n p j fr h
+    | comment s c => simp only [specFrames] at h; simpa only [markerAt] using ih mk p j fr h
+    | result s r => simp only [specFrames] at h; simpa only [markerAt] using ih mk p j fr h
+    | move s m md =>
+      simp only [specFrames] at h
+      cases ha : p.apply basis m with
+      | error e =>
+        rw [ha] at h
+        cases j with
+        | zero => simp only [List.getElem?_cons_zero, Option.some.injEq] at h; subst h; left; rfl
+        | succ j => simp at h
+      | ok q =>
+        rw [ha] at h
+        dsimp only at h
+        by_cases hg : q.gameOver.1 = true
+        · rw [if_pos hg] at h
+          cases j with
+          | zero => simp only [List.getElem?_cons_zero, Option.some.injEq] at h; subst h; left; rfl
+          | succ j =>
+            cases j with
+            | zero =>
+              simp only [List.getElem?_cons_succ, List.getElem?_cons_zero, Option.some.injEq] at h
+              subst h; right; exact ⟨0, rfl, hg, rfl⟩
+            | succ j => simp at h
+        · rw [if_neg hg] at h
+          cases j with
+          | zero => simp only [List.getElem?_cons_zero, Option.some.injEq] at h; subst h; left; rfl
+          | succ j =>
+            simp only [List.getElem?_cons_succ] at h
+            rcases ih mk q j fr h with h1 | ⟨j', h1, h2, h3⟩
+            · left; simpa only [markerAt] using h1
+            · right; exact ⟨j' + 1, by omega, h2, by simpa only [markerAt] using h3⟩
+
+/-- from a state with no pending move, the whole trace is the list-level replay -/
+theorem collect_idle (env : Env) (hflood : ∀ p m s, Pos.apply env.basis p m ≠ .error (.hang s))
+    (jt : Iter) (q : Pos) (fuel : Nat) (herr : jt.err = none) (hover : jt.over = false)
+    (hpos : jt.position = some q) (hz : jt.move.type = 0) (hnz : NoZero jt.rest) (hfuel : jt.rest.length + 2 ≤ fuel) :
+    collect env fuel jt = .ok (specFrames env.basis jt.rest jt.ptnMove q) := by
+  obtain ⟨f, rfl⟩ : ∃ f, fuel = f + 1 := ⟨fuel - 1, by omega⟩
+  have hS := scanSpec_all env hflood jt.rest.length jt q f herr hover hpos hz (Nat.le_refl _) hnz (by omega)
+  unfold collect
+  rw [next_eq env jt q herr hover hpos, if_neg (by simp [hz])]
+  have hb := scanFinish_true jt
+  have hq := scanFinish_position jt
+  rw [hpos] at hq
+  generalize scanFinish jt = r at hS hb hq ⊢
+  obtain ⟨kt, b⟩ := r
+  dsimp only at hS hb hq ⊢
+  subst hb
+  dsimp only
+  rw [hq]
+  dsimp only
+  cases hc : collect env f kt with
+  | error e => rw [hc] at hS; cases hS
+  | ok r => rw [hc] at hS; exact hS
